@@ -21,7 +21,16 @@ def IDX(S):
 
 
 def canon(d):
-    """canonical element / index form, loop ids dropped"""
+    """canonical element / index form (to a fixpoint)"""
+    for _ in range(5):
+        n = _canon1(d)
+        if n == d:
+            return n
+        d = n
+    return d
+
+
+def _canon1(d):
     def fn(n):
         if n[0] == 'field' and isinstance(n[2], tuple) and n[2] and n[2][0] == 'itervar':
             src = n[2][1]
@@ -31,6 +40,16 @@ def canon(d):
                     return IDX(S)
                 if n[1] in ('1', 1):
                     return ('index', S, IDX(S))
+        if n[0] == 'index' and len(n) == 3 and isinstance(n[1], tuple) and n[1] and n[1][0] == 'call' and n[1][1] == 'Iterator::zip' and len(n[1]) == 4:
+            # element k of zip(A, B) is (A[k], B[k])
+            I = canon(n[2])
+            return canon(('agg', 'tuple', ('0', ('index', n[1][2], I)), ('1', ('index', n[1][3], I))))
+        if n[0] == 'field' and isinstance(n[2], tuple) and n[2] and n[2][0] in ('index', 'itervar', 'field'):
+            inner = canon(n[2])
+            if inner != n[2] and inner[0] == 'agg' and inner[1] == 'tuple':
+                f = dict(inner[2:])
+                if str(n[1]) in f:
+                    return canon(f[str(n[1])])
         if n[0] == 'field' and isinstance(n[2], tuple) and n[2] and n[2][0] == 'agg' and n[2][1] == 'tuple':
             f = dict(n[2][2:])
             if str(n[1]) in f:
@@ -38,7 +57,8 @@ def canon(d):
         if n[0] == 'itervar':
             src = n[1]
             if isinstance(src, tuple) and src[0] in ('range', 'rangeincl'):
-                return ('itervar', tuple(canon(x) if isinstance(x, tuple) else x for x in src))
+                # keep the loop id: two nested loops over identical ranges have different variables
+                return ('itervar', tuple(canon(x) if isinstance(x, tuple) else x for x in src)) + tuple(n[2:])
             if isinstance(src, tuple) and src[0] == 'call' and src[1] == 'Iterator::enumerate':
                 S = canon(src[2])
                 return ('agg', 'tuple', ('0', IDX(S)), ('1', ('index', S, IDX(S))))
